@@ -68,6 +68,19 @@ func c06Exec(c *fw.Ctx, cas c06Case) (nontrivial bool) {
 	case "absent":
 	case "truthful":
 		param, declared, numeric = " SIZE="+strconv.Itoa(sCRLF), int64(sCRLF), true
+	case "over+body", "body+over+auth", "within+body":
+		// the SIZE parameter next to other ESMTP parameters, in either order
+		n := cas.Limit + 1
+		if cas.Declare == "within+body" {
+			n = cas.Limit
+		}
+		declared, numeric = int64(n), true
+		switch cas.Declare {
+		case "body+over+auth":
+			param = " BODY=7BIT SIZE=" + strconv.Itoa(n) + " AUTH=<>"
+		default:
+			param = " SIZE=" + strconv.Itoa(n) + " BODY=8BITMIME"
+		}
 	default:
 		param = " SIZE=" + cas.Declare
 		if v, err := strconv.ParseInt(cas.Declare, 10, 64); err == nil {
@@ -163,7 +176,8 @@ func c06Run(c *fw.Ctx) {
 					continue // a 1-byte LF-normalised body would be a lone line terminator; covered by 0 and 2
 				}
 				for _, decl := range []string{"absent", "truthful", strconv.Itoa(L), strconv.Itoa(L + 1), "1", "2147483648", "x",
-					"4294967296", "9223372036854775808", "18446744073709551616", "99999999999999999999999999"} {
+					"4294967296", "9223372036854775808", "18446744073709551616", "99999999999999999999999999",
+					"over+body", "body+over+auth", "within+body"} {
 					n++
 					if !c.Mine(n) {
 						continue
